@@ -49,7 +49,7 @@ Definition prefer_move (l r : rmove) : bool :=
 
 Section S.
 Variable basis : list N.
-Definition mvp := move_prealloc (hash_sq basis) false.           (* the pinned Position.Move *)
+Definition mvp := move_prealloc (hash_sq basis) true.            (* Position.Move (repaired: off-board origins are errors) *)
 
 Definition new_pos (sz : N) : position := from_squares basis sz (repeat (repeat [] (N.to_nat sz)) (N.to_nat sz)) 0.
 
